@@ -1,9 +1,24 @@
 """C06 — red-black tree: Lean model `RB.T` / `RB.Tree` (Model/RBTree.lean), theorems Props/C06.lean.
 
 Correspondence: every operation line is executed by the real `redblack.Tree[int,int]` (compare function wrapped to
-count its calls) and by the model; compared per line: results, number of compare calls, and (op `dump`) the pre-order
-dump colour/key/value of the real nodes obtained through the overlay, with the parent-link consistency bit.  The op
-`inv` checks the red-black invariants directly on the real nodes (expected constant `ok`)."""
+count its calls) and by the model; compared per line: results, the verdict `cmp-ok` of the comparison bound, and (op
+`dump`, model-only observable) the pre-order dump colour/key/value of the real nodes obtained through the overlay, with
+the parent-link consistency bit.  The op `inv` checks the red-black invariants directly on the real nodes (expected
+constant `ok`).
+
+Comparison clause: the property bounds the number of compare calls ("at most about 2*log2(n+1) plus the number of
+entries equal to the key"); it does not fix the exact number, so exact counts are NOT compared (a refactoring that saves a
+comparison is not a violation).  The harness judges the real count of every operation against the bound computed from
+the real tree (see BOUND_RULE) and prints `cmp-ok` or `cmp-bad c=… bound=…`; the model prints the constant `cmp-ok`
+(its own counts meet the bound by C06.compares_find / compares_insert / compares_remove / compares_run).  Both sides
+append their exact count as ` c=N`; it is stripped before comparison and only feeds an informational statistic."""
+
+BOUND_RULE = ("comparison bound judged by the harness on the REAL compare-call count c of every operation, n = Count() of "
+              "the real tree before the operation, E = number of stored entries whose key compares equal to the probe "
+              "(counted by a full Traverse with the uncounted comparison), slack = 2: Get and Remove c <= "
+              "2*floor(log2(n+1)) + E + 2; Insert c <= 2*floor(log2(n+1)) + 1 + 2; TraverseStartingAt and "
+              "ReverseTraverseStartingAt c <= n + 2; output `cmp-ok` or `cmp-bad c=.. bound=..` is part of the compared "
+              "line (model: constant `cmp-ok`); exact counts are not compared")
 
 
 def _tag(line, out):
@@ -23,18 +38,47 @@ def _tag(line, out):
     return None
 
 
-def _strip_count(out):
+def _count_of(out):
+    """the trailing informational ` c=N` of an output line, or None"""
     i = out.rfind("c=")
     if i >= 0 and out[i + 2:].isdigit() and (i == 0 or out[i - 1] == " "):
-        return out[:i].rstrip()
-    return out
+        return i, int(out[i + 2:])
+    return None
+
+
+def _strip_count(out):
+    r = _count_of(out)
+    return out[:r[0]].rstrip() if r else out
 
 
 def _behaviour_only(out):
-    """pass A: compare-call counts stripped, node dumps blanked (both are compared in pass B)"""
+    """pass A: exact counts stripped, node dumps reduced to the parent-link bit (shape is compared in pass B)"""
     if out.endswith("parents=ok") or out.endswith("parents=BAD"):
         return "dump " + out.rsplit(" ", 1)[1]
     return _strip_count(out)
+
+
+class _CountStats:
+    """canon for pass B: strips the exact count and records, for information only, how often the real and the model
+    count coincide.  core calls canon in pairs `canon(impl), canon(model)`."""
+
+    def __init__(self):
+        self.impl = None
+        self.have_impl = False
+        self.stats = {"compared": 0, "equal": 0, "impl_fewer": 0, "impl_more": 0}
+
+    def __call__(self, out):
+        r = _count_of(out)
+        if not self.have_impl:
+            self.impl, self.have_impl = (r[1] if r else None), True
+        else:
+            m = r[1] if r else None
+            if m is not None and self.impl is not None:
+                st = self.stats
+                st["compared"] += 1
+                st["equal" if m == self.impl else ("impl_fewer" if self.impl < m else "impl_more")] += 1
+            self.have_impl = False
+        return out[:r[0]].rstrip() if r else out
 
 
 def run(ctx):
@@ -51,17 +95,25 @@ def run(ctx):
     ctx.harness("./cmd/c06", overlay={"collection/redblack/verif_dump.go": "redblack_verif.go"})
     common = dict(area="rbtree", driver="drv_c06", stateful=True, trivial=lambda l, o: l in ("inv",),
                   model_only=lambda l: l.startswith("dump"))
-    # pass A: observable behaviour only (compare-call counts stripped, node dumps reduced to the parent-link bit), so
-    # that a behavioural difference is minimised and reported as such, with its concrete failing history, and is not
-    # crowded out by the count/shape differences that usually precede it in the same history
+    # pass A: observable behaviour only (node dumps reduced to the parent-link bit), so that a behavioural difference
+    # is minimised and reported as such, with its concrete failing history, and is not crowded out by the shape
+    # differences (model-only observable) that usually precede it in the same history
     ctx.diff(n={"quick": 500000, "thorough": 3000000}, canon=_behaviour_only, tagger=_tag,
-             theorem="C06.inorder_run / remove_inorder / queries_run / traverseFrom_run / count_run / run_inv are "
-                     "theorems about the model RB.Tree; the implementation differs from the model on this history",
-             what="results of redblack.Tree vs the Lean model (compare counts and node shape ignored in this pass)",
+             theorem="C06.inorder_run / remove_inorder / queries_run / traverseFrom_run / count_run / run_inv / "
+                     "compares_run are theorems about the model RB.Tree; the implementation differs from the model on "
+                     "this history (or exceeds the comparison bound: cmp-bad, or breaks an invariant: inv)",
+             what="results, comparison-bound verdict and invariant check of redblack.Tree vs the Lean model (node shape "
+                  "ignored in this pass); " + BOUND_RULE,
              **common)
-    # pass B: everything: results, number of calls made to the compare function per operation, node shape and colours
-    ctx.diff(n={"quick": 1000000, "thorough": 16000000},
-             theorem="C06.compares_find / compares_insert / compares_remove / height_run bound the model's compare "
-                     "counts and height; the implementation's count, shape (or result) differs from the model on "
+    # pass B: the same plus node shape and colours (op `dump`, model-only observable)
+    stats = _CountStats()
+    ctx.diff(n={"quick": 1000000, "thorough": 16000000}, canon=stats,
+             theorem="C06.height_run / run_inv hold for the model, whose shape the implementation is expected to share; "
+                     "the implementation's shape (or result, or comparison-bound verdict) differs from the model on "
                      "this history",
-             what="results, compare-call counts and node shape/colours of redblack.Tree vs the Lean model", **common)
+             what="results, comparison-bound verdict and node shape/colours of redblack.Tree vs the Lean model; "
+                  + BOUND_RULE, **common)
+    ctx.rules.append(BOUND_RULE)
+    ctx.extra["exact_compare_counts_informational"] = dict(
+        stats.stats, note="real vs model number of compare calls per ins/rem/get/travfrom/rtravfrom line of pass B; "
+                          "not part of the verdict")
